@@ -288,22 +288,29 @@ def readerRead : Nat → Group → Reader → Nat → Bytes → Bytes × Bool ×
     else if r.idx + 1 > g.maxIndex then (acc, true, r, g)
     else readerRead fuel (readerOpen g (r.idx + 1)) { idx := r.idx + 1 } (need - k) acc
 
+/-- third read of `Decode` on an open reader: the payload -/
+def readerDecode3 (P : Params) (fuel : Nat) (c lb : Bytes) (g2 : Group) (r2 : Reader) :
+    DecRes × Reader × Group :=
+  match readerRead fuel g2 r2 (ofBe32 lb) [] with
+  | (d, eof3, r3, g3) =>
+    if eof3 then (.corrupt .dataRead, r3, g3) else ((check P c d []).1, r3, g3)
+
+/-- second read: the length field, and the checks on it -/
+def readerDecode2 (P : Params) (fuel : Nat) (c : Bytes) (g1 : Group) (r1 : Reader) :
+    DecRes × Reader × Group :=
+  match readerRead fuel g1 r1 4 [] with
+  | (lb, eof2, r2, g2) =>
+    if eof2 then (.corrupt .lenRead, r2, g2)
+    else if ofBe32 lb > P.maxLen then (.corrupt .tooBig, r2, g2)
+    else if ofBe32 lb = 0 then (.corrupt .dataRead, r2, g2)
+    else readerDecode3 P fuel c lb g2 r2
+
 /-- `WALDecoder.Decode` on an open group reader (same branches as `decodeG`) -/
 def readerDecode (P : Params) (g : Group) (r : Reader) : DecRes × Reader × Group :=
-  let fuel := g.maxIndex + 2
-  let (c, eof1, r1, g1) := readerRead fuel g r 4 []
-  if eof1 then ((if c.isEmpty then .eof else .corrupt .crcRead), r1, g1)
-  else
-    let (lb, eof2, r2, g2) := readerRead fuel g1 r1 4 []
-    if eof2 then (.corrupt .lenRead, r2, g2)
-    else
-      let n := ofBe32 lb
-      if n > P.maxLen then (.corrupt .tooBig, r2, g2)
-      else if n = 0 then (.corrupt .dataRead, r2, g2)
-      else
-        let (d, eof3, r3, g3) := readerRead fuel g2 r2 n []
-        if eof3 then (.corrupt .dataRead, r3, g3)
-        else ((check P c d []).1, r3, g3)
+  match readerRead (g.maxIndex + 2) g r 4 [] with
+  | (c, eof1, r1, g1) =>
+    if eof1 then ((if c.isEmpty then .eof else .corrupt .crcRead), r1, g1)
+    else readerDecode2 P (g.maxIndex + 2) c g1 r1
 
 /-- decode up to `n` records, stop at the first non-record -/
 def readerNext (P : Params) : Nat → Group → Reader → List Bytes × Option DecRes × Reader × Group
